@@ -743,3 +743,60 @@ def c17_t2(ctx):
         yield bad("C17-T2", "Counter::restart:order", at(r), "restart un-pauses the counter before accounting for elapsed time: the time spent paused is counted as expirations")
     else:
         yield bad("C17-T2", "Counter::restart:order", at(r), "restart does not call update() before un-pausing (update blocks %s, un-pause blocks %s): the time spent paused is counted as expirations" % (upd, unp))
+
+
+# ================================================================ C17-W2
+@rule("C17", "C17-W2", 2, "timers are polled independently: an expiry (or limit) of one timer never hides the expiry of another - every poll of a timer is reachable from each outcome of every test on a different timer that precedes it")
+def c17_w2(ctx):
+    from core import dominators
+    from common import sstr
+
+    n = 0
+    for adt, nm in TXNS:
+        f = ctx.one("C17-W2", nm + "::handle_timeout")
+        eb = ExprBuilder(ctx.prog, f)
+        dom = dominators(f)
+        polls = []  # (block, timer)
+        for b, t in f.all_calls():
+            e = eb.call(b, t)
+            if e[0] != "call":
+                continue
+            cal = callee_name(e) or ""
+            if cal.startswith("cfdp_daemon::timer::Counter::") and cal.split("::")[-1] in ("timeout_occurred", "limit_reached") and e[3]:
+                m = re.match(r"^self\.timer\.(\w+)$", sstr(e[3][0]))
+                if m:
+                    polls.append((b, m.group(1), t["span"]["line"]))
+        tests = []  # (switch block, timer)
+        for sb in f.live_blocks():
+            st = f.blocks[sb]["term"]
+            if st["k"] != "switch":
+                continue
+            d = eb.operand(st["discr"])
+            while d[0] == "unop" and d[1] == "Not":
+                d = d[2]
+            if d[0] == "call" and (callee_name(d) or "").startswith("cfdp_daemon::timer::Counter::") and d[3]:
+                m = re.match(r"^self\.timer\.(\w+)$", sstr(d[3][0]))
+                if m:
+                    tests.append((sb, m.group(1)))
+        if not polls:
+            raise Anchor("C17-W2", "timer polls in %s::handle_timeout" % nm)
+        cnt = {}
+        for pb, tb, line in polls:
+            hidden = []
+            for sb, ta in tests:
+                if ta == tb or sb not in dom.get(pb, ()) or sb == pb:
+                    continue
+                for s_, _lab in f.succs(sb):
+                    if pb not in f.reachable(s_):
+                        hidden.append((ta, f.blocks[sb]["term"]["span"]["line"]))
+                        break
+            n += 1
+            base = "%s::handle_timeout:poll(%s)" % (nm, tb)
+            cnt[base] = cnt.get(base, 0) + 1
+            key = base + ("#%d" % cnt[base] if cnt[base] > 1 else "")
+            if hidden:
+                yield bad("C17-W2", key, at(f, line), "the %s timer is only looked at on one outcome of the test on the %s timer (L%d): while that timer sits at its limit (or has expired) an expiry of the %s timer is never seen - its PDU is not retransmitted and its limit fault is never declared" % (tb, hidden[0][0], hidden[0][1], tb))
+            else:
+                yield ok("C17-W2", key, at(f, line), "reachable from every outcome of the tests on other timers")
+    if n == 0:
+        raise Anchor("C17-W2", "timer polls")
